@@ -124,6 +124,15 @@ def _check_source(src):
   for k, v in fd.items():
     if isinstance(v, dict):
       return f'items() yielded a mutable dict for key {k!r}'
+  # every way of getting at the values: nothing handed out is a mutable dict of the FrozenDict itself
+  for how, vals in (('values()', list(fd.values())), ('iter(values())', [v for v in iter(fd.values())]), ('dict(fd).values()', list(dict(fd).values())),
+                    ('get', [fd.get(k) for k in fd]), ('items()', [v for _, v in fd.items()]), ('reversed(values())', list(reversed(list(fd.values()))))):
+    for v in vals:
+      if isinstance(v, dict):
+        v['__injected__'] = 123
+        m = same(f'mutating a nested dict obtained through {how}')
+        if m:
+          return m
   u2 = fd.unfreeze()
   _scribble(u2)
   m = same('mutating the result of FrozenDict.unfreeze()')
